@@ -315,6 +315,9 @@ func streamC18(c *Ctx) {
 			c.Sample(line)
 		}
 	}
+	if !c18Rename(c, dr, g) {
+		return
+	}
 	// the declared family: embedded flattening, unexported fields, round trips
 	now := mkTime(1577923200123456789, 3600)
 	for i := 0; i < c.N(800, 6000); i++ {
@@ -349,4 +352,295 @@ func streamC18(c *Ctx) {
 			return
 		}
 	}
+}
+
+
+// ---- Document.Unmarshal: key renaming along the target struct type (renameMapKeys) ----
+
+type rField struct {
+	goName, clover, json string
+	sub                  []rField // nil = not a struct
+	ptr                  bool     // the nested struct sits behind a pointer
+}
+
+func rTypeOf(fs []rField) reflect.Type {
+	sf := []reflect.StructField{}
+	for _, f := range fs {
+		tag := ""
+		if f.clover != "" {
+			tag += fmt.Sprintf("clover:%q ", f.clover)
+		}
+		if f.json != "" {
+			tag += fmt.Sprintf("json:%q", f.json)
+		}
+		var t reflect.Type = reflect.TypeOf(int64(0))
+		if f.sub != nil {
+			t = rTypeOf(f.sub)
+			if f.ptr {
+				t = reflect.PtrTo(t)
+			}
+		}
+		sf = append(sf, reflect.StructField{Name: f.goName, Type: t, Tag: reflect.StructTag(strings.TrimSpace(tag))})
+	}
+	return reflect.StructOf(sf)
+}
+
+func rDesc(fs []rField) interface{} {
+	if fs == nil {
+		return nil
+	}
+	out := []interface{}{}
+	for _, f := range fs {
+		out = append(out, []interface{}{hx(f.goName), hx(f.clover), hx(f.json), rDesc(f.sub)})
+	}
+	return out
+}
+
+// within one struct the stored names are distinct and so are the names json reads (a struct violating this
+// is ambiguous for encoding/json itself); a stored name of one field may well be the json/Go name of another
+func rDistinct(fs []rField) bool {
+	from, to := map[string]bool{}, map[string]bool{}
+	for _, f := range fs {
+		a, b := f.goName, f.goName
+		if f.clover != "" {
+			a = f.clover
+		}
+		if f.json != "" {
+			b = f.json
+		}
+		if from[a] || to[b] {
+			return false
+		}
+		from[a], to[b] = true, true
+	}
+	return true
+}
+
+func genRFields(g *Gen, depth int) []rField {
+	for {
+		fs := genRFields1(g, depth)
+		if rDistinct(fs) {
+			return fs
+		}
+	}
+}
+
+func genRFields1(g *Gen, depth int) []rField {
+	names := []string{"a", "b", "A", "B", "k", "id", "F0", "F1", "x"}
+	n := 1 + g.pick(4)
+	fs := []rField{}
+	for i := 0; i < n; i++ {
+		f := rField{goName: []string{"A", "B", "C", "D"}[i]}
+		if g.pick(3) != 0 {
+			f.clover = names[g.pick(len(names))]
+		}
+		if g.pick(3) == 0 {
+			f.json = names[g.pick(len(names))]
+		}
+		if depth > 0 && g.pick(3) == 0 {
+			f.sub = genRFields(g, depth-1)
+			f.ptr = g.pick(2) == 0
+		}
+		fs = append(fs, f)
+	}
+	return fs
+}
+
+// a document shaped after the struct (keys under the names the fields are stored under) plus stray keys
+func genRDoc(g *Gen, fs []rField) map[string]interface{} {
+	m := map[string]interface{}{}
+	for _, f := range fs {
+		if g.pick(5) == 0 {
+			continue
+		}
+		key := f.goName
+		if f.clover != "" {
+			key = f.clover
+		}
+		if f.sub != nil && g.pick(6) != 0 {
+			m[key] = genRDoc(g, f.sub)
+		} else {
+			m[key] = int64(g.pick(100))
+		}
+	}
+	if g.pick(3) == 0 {
+		m[[]string{"zz", "a", "B", "q"}[g.pick(4)]] = int64(-1)
+	}
+	return m
+}
+
+// every key of every level moves to a distinct target (otherwise Go's map iteration order decides)
+func rCollisionFree(fs []rField, m map[string]interface{}) bool {
+	rm := map[string]string{}
+	for _, f := range fs {
+		from, to := f.goName, f.goName
+		if f.clover != "" {
+			from = f.clover
+		}
+		if f.json != "" {
+			to = f.json
+		}
+		if from != to {
+			rm[from] = to
+		} else {
+			delete(rm, from)
+		}
+	}
+	// (a later field with the same source key overwrites the entry: mirror the Go map)
+	rm = map[string]string{}
+	for _, f := range fs {
+		from, to := f.goName, f.goName
+		if f.clover != "" {
+			from = f.clover
+		}
+		if f.json != "" {
+			to = f.json
+		}
+		if from != to {
+			rm[from] = to
+		}
+	}
+	seen := map[string]bool{}
+	for k := range m {
+		t := k
+		if r, ok := rm[k]; ok && r != "" {
+			t = r
+		}
+		if seen[t] {
+			return false
+		}
+		seen[t] = true
+	}
+	for _, f := range fs {
+		if f.sub == nil {
+			continue
+		}
+		key := f.goName
+		if f.clover != "" {
+			key = f.clover
+		}
+		if sub, ok := m[key].(map[string]interface{}); ok && !rCollisionFree(f.sub, sub) {
+			return false
+		}
+	}
+	return true
+}
+
+func c18Rename(c *Ctx, dr *Driver, g *Gen) bool {
+	// a mismatch between renameMapKeys and its model does not end the run: the search goes on with the
+	// property's own oracle (struct -> document -> struct) and reports the mismatch only if that finds nothing
+	var pending *Replay
+	defer func() {
+		if pending != nil && c.Violations == 0 {
+			c.Unexplained(pending, "correspondence K-C18/rename")
+		}
+	}()
+	for i := 0; i < c.N(4000, 40000); i++ {
+		fs := genRFields(g, 2)
+		m := genRDoc(g, fs)
+		if !rCollisionFree(fs, m) {
+			continue
+		}
+		line := J{"k": "rename", "doc": encDoc(m), "rtype": rDesc(fs)}
+		c.Evals++
+		var got map[string]interface{}
+		pan := ""
+		func() {
+			defer func() {
+				if r := recover(); r != nil {
+					pan = fmt.Sprint(r)
+				}
+			}()
+			target := reflect.New(rTypeOf(fs)).Interface()
+			got = clover.VerifRenameMapKeys(copyJSONMap(m), target)
+		}()
+		if pan != "" {
+			c.Violation(&Replay{Stream: "rename", Case: []interface{}{line}, Actual: []string{"panic " + pan}, Note: "renameMapKeys panicked"})
+			return false
+		}
+		c.Count("rename:fields=" + fmt.Sprint(len(fs)))
+		want := dr.Ask(line)
+		if canonDoc(got) != want && pending == nil {
+			pending = &Replay{Stream: "rename", Case: []interface{}{line}, Expected: []string{want}, Actual: []string{canonDoc(got)}}
+		}
+		c.NonTrivial("rename|" + fmt.Sprint(rDesc(fs)) + canonDoc(m))
+		// the property itself on the implementation: a struct of this type converted to a document and
+		// unmarshalled back is unchanged (names that differ only in case are left out: encoding/json folds case)
+		if rFoldDistinct(fs) {
+			t := rTypeOf(fs)
+			v := reflect.New(t).Elem()
+			rFill(g, fs, v)
+			doc := d.NewDocumentOf(v.Interface())
+			back := reflect.New(t)
+			var uerr error
+			func() {
+				defer func() {
+					if r := recover(); r != nil {
+						pan = fmt.Sprint(r)
+					}
+				}()
+				uerr = doc.Unmarshal(back.Interface())
+			}()
+			c.Evals++
+			if pan != "" || uerr != nil || !reflect.DeepEqual(back.Elem().Interface(), v.Interface()) {
+				c.Violation(&Replay{Stream: "rename", Case: []interface{}{J{"k": "roundtrip", "rtype": rDesc(fs), "value": fmt.Sprintf("%+v", v.Interface())}},
+					Expected: []string{fmt.Sprintf("%+v", v.Interface())}, Actual: []string{fmt.Sprintf("%+v", back.Elem().Interface()), pan, fmt.Sprint(uerr)},
+					Note: "a struct converted to a document and unmarshalled back differs (document: " + canonDoc(doc.AsMap()) + ")"})
+				return false
+			}
+			c.Count("struct-roundtrip")
+		}
+	}
+	return pending == nil
+}
+
+// rFoldDistinct: the names json reads are distinct even ignoring case, at every level
+func rFoldDistinct(fs []rField) bool {
+	to := map[string]bool{}
+	for _, f := range fs {
+		b := f.goName
+		if f.json != "" {
+			b = f.json
+		}
+		if to[strings.ToLower(b)] {
+			return false
+		}
+		to[strings.ToLower(b)] = true
+		if f.sub != nil && !rFoldDistinct(f.sub) {
+			return false
+		}
+	}
+	return true
+}
+
+// rFill: non-zero leaves; nested structs behind pointers are allocated most of the time
+func rFill(g *Gen, fs []rField, v reflect.Value) {
+	for i, f := range fs {
+		fv := v.Field(i)
+		if f.sub == nil {
+			fv.SetInt(int64(1 + g.pick(1000)))
+			continue
+		}
+		if f.ptr {
+			if g.pick(5) == 0 {
+				continue // nil pointer
+			}
+			fv.Set(reflect.New(fv.Type().Elem()))
+			rFill(g, f.sub, fv.Elem())
+		} else {
+			rFill(g, f.sub, fv)
+		}
+	}
+}
+
+func copyJSONMap(m map[string]interface{}) map[string]interface{} {
+	out := map[string]interface{}{}
+	for k, v := range m {
+		if sub, ok := v.(map[string]interface{}); ok {
+			out[k] = copyJSONMap(sub)
+		} else {
+			out[k] = v
+		}
+	}
+	return out
 }
